@@ -1051,8 +1051,9 @@ impl Task for ClientReq {
                 _ => {
                     let r = self.side.run(cx, sim, &api, None);
                     if let TP::Done = r {
+                        let sid = self.side.sid_cached();
                         if self.side.stream.take().is_some() {
-                            api.ev("drop_send", self.side.sid_cached(), tag, "ok", json!({}));
+                            api.ev("drop_send", sid, tag, "ok", json!({}));
                         }
                     }
                     return r;
@@ -1144,6 +1145,7 @@ impl Task for ClientResp {
                 Poll::Ready(Err(e)) => {
                     api.ev("poll_response", sid, tag, "err", json!({"e": err_json(&e)}));
                     self.pfut = None;
+                    api.ev("drop_recv", sid, tag, "ok", json!({}));
                     TP::Done
                 }
             };
@@ -1152,6 +1154,7 @@ impl Task for ClientResp {
         if self.pol.push && !self.push_spawned {
             self.push_spawned = true;
             let pp = fut.push_promises();
+            api.ev("hold_push", sid, tag, "ok", json!({}));
             sim.spawn.push(Box::new(PushPoller { name: format!("cp{}", tag), tag, sid, pp: Some(pp), pol: self.pol.clone(), blocked: None }));
         }
         loop {
@@ -1196,6 +1199,7 @@ impl Task for ClientResp {
                 Poll::Ready(Err(e)) => {
                     api.ev("poll_response", sid, tag, "err", json!({"e": err_json(&e)}));
                     self.fut = None;
+                    api.ev("drop_recv", sid, tag, "ok", json!({}));
                     return TP::Done;
                 }
             }
@@ -1240,11 +1244,13 @@ impl Task for PushPoller {
                 Poll::Ready(None) => {
                     api.ev("poll_push", self.sid, self.tag, "none", json!({}));
                     self.pp = None;
+                    api.ev("drop_push", self.sid, self.tag, "ok", json!({}));
                     return TP::Done;
                 }
                 Poll::Ready(Some(Err(e))) => {
                     api.ev("poll_push", self.sid, self.tag, "err", json!({"e": err_json(&e)}));
                     self.pp = None;
+                    api.ev("drop_push", self.sid, self.tag, "ok", json!({}));
                     return TP::Done;
                 }
                 Poll::Ready(Some(Ok(p))) => {
@@ -1276,13 +1282,15 @@ pub enum SState {
 pub struct ServerConn {
     pub st: SState,
     pub blocked: Option<String>,
+    /// remaining accepts the application is willing to make (None = unlimited)
+    pub accept_budget: Option<usize>,
 }
 
 impl ServerConn {
     pub fn new(w: &Shared, cfg: &EpCfg) -> ServerConn {
         let io = SimIo { ep: 1, w: w.clone() };
         let hs = server_builder(cfg).handshake::<SimIo, Bytes>(io);
-        ServerConn { st: SState::Handshaking(hs), blocked: None }
+        ServerConn { st: SState::Handshaking(hs), blocked: None, accept_budget: None }
     }
 }
 
@@ -1311,6 +1319,10 @@ impl Task for ServerConn {
             self.st = SState::Done;
             self.blocked = None;
             api.ev("conn_drop", 0, 0, "ok", json!({}));
+            return;
+        }
+        if op == "accept_allow" {
+            self.accept_budget = Some(self.accept_budget.or(sim.scn.srv_accept_budget).unwrap_or(0) + n as usize);
             return;
         }
         if let SState::Running(c) = &mut self.st {
@@ -1366,7 +1378,10 @@ impl Task for ServerConn {
                     }
                 },
                 SState::Running(c) => {
-                    if sim.scn.srv_no_accept {
+                    if self.accept_budget.is_none() {
+                        self.accept_budget = sim.scn.srv_accept_budget;
+                    }
+                    if sim.scn.srv_no_accept || self.accept_budget == Some(0) {
                         match c.poll_closed(cx) {
                             Poll::Pending => {
                                 self.blocked = Some("conn".into());
@@ -1409,6 +1424,9 @@ impl Task for ServerConn {
                             let canon = canon_req(&req);
                             let (_, body) = req.into_parts();
                             api.ev("accept", sid, tag, "some", json!({"hdr": canon, "eos": body.is_end_stream()}));
+                            if let Some(b) = self.accept_budget.as_mut() {
+                                *b -= 1;
+                            }
                             let idx = sim.reg.accepted;
                             sim.reg.accepted += 1;
                             let prog = if sim.scn.srv.is_empty() {
